@@ -1759,7 +1759,7 @@ namespace cds { namespace container {
                     assert( check_node_ordering( pLeft, pLRight ) < 0 );
 
                     hLR = height( pLRight, memory_model::memory_order_acquire );
-                    if ( hLL > hLR )
+                    if ( hLL >= hLR )
                         return rotate_right_locked( pParent, pNode, pLeft, hR, hLL, pLRight, hLR );
 
                     int hLRL = height_null( child( pLRight, left_child, memory_model::memory_order_relaxed ), memory_model::memory_order_acquire );
